@@ -1,1 +1,80 @@
-From PC Require Import Base.Cmp Model.Pep440 Spec.Pep440Spec.
+(* C03 — version parsing, normalisation and ordering follow PEP 440.
+   Statements only; every proof is [exact lemma].  Model: Model/Pep440.v; reference: Spec/Pep440Spec.v. *)
+From Coq Require Import List Bool NArith String.
+From PC Require Import Base.Cmp Model.Pep440 Spec.Pep440Spec Proofs.Pep440Order Proofs.Pep440Parse.
+Import ListNotations.
+Open Scope N_scope.
+
+(* every accepted string yields a well-formed version (so the theorems below apply to it) *)
+Theorem C03_parse_wf : forall s v, parse s = Some v -> wf v = true.
+Proof. exact parse_wf. Qed.
+Print Assumptions C03_parse_wf.
+
+(* the comparison equals the reference (packaging _cmpkey / PEP 440) order, releases compared by zero padding *)
+Theorem C03_order_agrees : forall v w, wf v = true -> wf w = true -> vcmp v w = scmp (norm v) (norm w).
+Proof. exact order_agrees. Qed.
+Print Assumptions C03_order_agrees.
+
+(* strict total order; == is an equivalence compatible with the order; equal versions have equal hash keys *)
+Theorem C03_strict_total :
+  (forall v, vltb v v = false) /\
+  (forall u v w, vltb u v = true -> vltb v w = true -> vltb u w = true) /\
+  (forall v w, (vltb v w = true /\ veqb v w = false /\ vltb w v = false) \/
+               (vltb v w = false /\ veqb v w = true /\ vltb w v = false) \/
+               (vltb v w = false /\ veqb v w = false /\ vltb w v = true)).
+Proof. exact (conj vlt_irrefl (conj vlt_trans v_trichotomy)). Qed.
+Print Assumptions C03_strict_total.
+
+Theorem C03_eq_equivalence :
+  (forall v, veqb v v = true) /\ (forall v w, veqb v w = veqb w v) /\
+  (forall u v w, veqb u v = true -> veqb v w = true -> veqb u w = true) /\
+  (forall u v w, veqb u v = true -> vcmp u w = vcmp v w /\ vcmp w u = vcmp w v).
+Proof. destruct veq_equiv as (a & b & c). exact (conj a (conj b (conj c veq_congr))). Qed.
+Print Assumptions C03_eq_equivalence.
+
+(* the hash is computed from the compare key: equal versions have structurally equal keys, and conversely *)
+Theorem C03_eq_iff_hash_key : forall v w, veqb v w = true <-> vkey v = vkey w.
+Proof. exact (fun v w => conj (veqb_key v w) (key_veqb v w)). Qed.
+Print Assumptions C03_eq_iff_hash_key.
+
+(* 1.0 == 1.0.0: trailing zero components never matter *)
+Theorem C03_padding : forall v k, vcmp v (with_rel v (rel v ++ repeat 0 k)%list) = Eq.
+Proof. exact padding_irrelevant. Qed.
+Print Assumptions C03_padding.
+
+(* dev < pre < final < post, a < b < rc, X.devN directly below X *)
+Theorem C03_phase_chain : forall e r n p m k, pre_phase p = true ->
+  vcmp (mkV e r None None (Some (mkTag PDev n)) None "") (mkV e r (Some (mkTag p m)) None None None "") = Lt /\
+  vcmp (mkV e r (Some (mkTag p m)) None None None "") (bare e r) = Lt /\
+  vcmp (bare e r) (mkV e r None (Some (mkTag PPost k)) None None "") = Lt.
+Proof. exact phase_chain. Qed.
+Print Assumptions C03_phase_chain.
+Theorem C03_pre_phase_order : forall e r n m,
+  vcmp (mkV e r (Some (mkTag PA n)) None None None "") (mkV e r (Some (mkTag PB m)) None None None "") = Lt /\
+  vcmp (mkV e r (Some (mkTag PB n)) None None None "") (mkV e r (Some (mkTag PRC m)) None None None "") = Lt.
+Proof. exact pre_phase_order. Qed.
+Print Assumptions C03_pre_phase_order.
+Theorem C03_dev_below : forall e r p po n l,
+  vcmp (mkV e r p po (Some (mkTag PDev n)) l "") (mkV e r p po None l "") = Lt.
+Proof. exact dev_below. Qed.
+Print Assumptions C03_dev_below.
+
+(* local labels: absent < alphabetic < numeric; numeric by value; a proper prefix sorts first *)
+Theorem C03_local_order : forall e r p po d,
+  (forall x l, wf_lseg x = true -> vcmp (mkV e r p po d None "") (mkV e r p po d (Some (x :: l)) "") = Lt) /\
+  (forall s n l l', vcmp (mkV e r p po d (Some (LStr s :: l)) "") (mkV e r p po d (Some (LNum n :: l')) "") = Lt) /\
+  (forall n m l l', n < m -> vcmp (mkV e r p po d (Some (LNum n :: l)) "") (mkV e r p po d (Some (LNum m :: l')) "") = Lt) /\
+  (forall l x l', vcmp (mkV e r p po d (Some l) "") (mkV e r p po d (Some (l ++ x :: l')%list) "") = Lt).
+Proof. exact local_order. Qed.
+Print Assumptions C03_local_order.
+
+(* the normalised text is the reference's canonical form *)
+Theorem C03_normal_form : forall v, wf_tags v = true -> to_string v = canonical (norm v).
+Proof. exact normal_form. Qed.
+Print Assumptions C03_normal_form.
+
+(* non-vacuity: a parsed version with every kind of segment meets the hypotheses *)
+Example C03_example :
+  exists v, parse "1!2.0.0RC-3.post4.dev5+Ubuntu_01" = Some v /\ wf v = true /\
+            to_string v = "1!2.0.0rc3.post4.dev5+ubuntu.1"%string.
+Proof. eexists. split; [vm_compute; reflexivity|]. split; vm_compute; reflexivity. Qed.
